@@ -282,6 +282,9 @@ impl<SP: StorageProvider, PS: PolicyStore> Transaction<SP, PS> {
         parent: Address,
         buffer: &mut TraversalBuffer,
     ) -> Result<(), ClientError> {
+        // A perspective created for this command holds no commands yet.
+        let fresh = self.phead != Some(parent.id);
+        let was_head = self.heads.get(&parent.id).copied();
         let perspective = self.get_perspective(parent, storage, buffer)?;
 
         let policy_id = perspective.policy();
@@ -298,6 +301,15 @@ impl<SP: StorageProvider, PS: PolicyStore> Transaction<SP, PS> {
         ) {
             perspective.revert(checkpoint)?;
             sink.rollback();
+            if fresh {
+                // The rejected command was the only one in its perspective. An empty
+                // perspective cannot be written, so drop it and restore the parent tip.
+                self.perspective = None;
+                self.phead = None;
+                if let Some(loc) = was_head {
+                    self.heads.insert(parent.id, loc);
+                }
+            }
             return Err(e.into());
         }
         perspective.add_command(command)?;
